@@ -427,6 +427,9 @@ class NativeCtx:
         self._pending_kind = ('ints', n, lo, hi)
         return self._reg(name, ''.join(chr(c) for c in self._val(name, [lo] * n)) if n else '')
 
+    def view(self, name, kind='bytes', maxlen=None, lo=0, hi=255):
+        return self.seq(name, kind, maxlen)
+
     def seq(self, name, kind='bytes', maxlen=None):
         self._pending_kind = ('seq', maxlen)
         v = list(self._val(name, []))
